@@ -668,10 +668,67 @@ def r7_9(ctx):
             ctx.ok("R7.9", where(fi), f"result tested with {pat!r} on every path; {suffix!r} appended")
 
 
+_NOT_ATOMS = ["X (Y", "A\r\nB", 'a"b', "a\\b", "a b", "a)b", "a(b", "{4}", "", "a\nb", "a\rb", "caf\xe9 x"]
+
+
+def r7_10(ctx):
+    """The name of a FETCH response item repeats what the client asked for.  For BODY[HEADER.FIELDS (...)] that includes the
+    field names, which are astrings: the client may have sent a quoted string or a literal with parentheses, blanks, quotes
+    or line breaks in it.  FetchAtt.dbg() puts a name into the response line as it came only after a pattern test that none
+    of those can pass; every other name goes through quoted() between double quotes."""
+    import re as _re
+
+    p = ctx.p
+    fi = p.func("fetch.FetchAtt.dbg")
+    ctx.analysed(fi)
+    joins = [c for c in calls_in(fi.node) if call_name(c) == "join" and c.args and isinstance(c.args[0], (ast.GeneratorExp, ast.ListComp))]
+    ctx.floor("R7.10", len(joins), 1, "joins of client-supplied names in FetchAtt.dbg()")
+    for c in joins:
+        comp = c.args[0]
+        var = comp.generators[0].target
+        elt = comp.elt
+        ok = why = None
+        if isinstance(elt, ast.IfExp):
+            rx = None
+            for x in ast.walk(elt.test):
+                rx = rx or _regex_of(p, fi, x)
+            raw_arm, other = (elt.body, elt.orelse)
+            if rx is not None and rx[1] == "fullmatch" and norm(raw_arm) == norm(var):
+                try:
+                    cre = _re.compile(rx[0])
+                    leaks = [s_ for s_ in _NOT_ATOMS if cre.fullmatch(s_)]
+                except _re.error:
+                    leaks = ["<pattern does not compile>"]
+                quoted_other = isinstance(other, ast.JoinedStr) and _quoted_hole(other)
+                if leaks:
+                    why = f"the pattern that lets a name through as it came accepts {leaks[0]!r}"
+                elif not quoted_other:
+                    why = "a name that is not an atom is not sent as \"<quoted(name)>\""
+                else:
+                    ok = f"atoms ({rx[0]}) as they came, everything else quoted"
+            else:
+                why = "the raw arm is not guarded by a fullmatch() against a constant pattern"
+        elif isinstance(elt, ast.JoinedStr) and _quoted_hole(elt):
+            ok = "every name quoted"
+        else:
+            why = f"names are joined as `{norm(elt, 40)}`"
+        if ok:
+            ctx.ok("R7.10", where(fi), f"HEADER.FIELDS names in the response item: {ok}")
+        else:
+            ctx.bad("R7.10", fi.module, fi.qual, norm(c, 80), f"client-supplied header field names reach the FETCH response line raw ({why}): `BODY.PEEK[HEADER.FIELDS (\"X (Y\" {{4}}CRLF A CRLF B)]` is answered with unbalanced parentheses and a line break inside the response", c.lineno)
+
+
+def _quoted_hole(js) -> bool:
+    """f'"{quoted(x)}"' : one hole, the result of quoted(), between literal double quotes"""
+    parts = merge_consts(fstring_parts(js))
+    return len(parts) == 3 and parts[0] == '"' and parts[2] == '"' and isinstance(parts[1], ast.Call) and call_name(parts[1]) in ("quoted",)
+
+
 def _run_extra(ctx):
     ctx.do(r7_4b)
     ctx.do(r7_8)
     ctx.do(r7_9)
+    ctx.do(r7_10)
 
 
 def run(ctx):
